@@ -40,6 +40,7 @@ PROP = {'rule': 'history / historyLong: rapid state machine that plays the sched
             'tests': [{'run': 'TestVerifC04History', 'quick': 8000, 'thorough': 50000, 'steps': 40, 'quick_shards': 2,
                        'shrinktime': '15s'},
                       {'run': 'TestVerifC04Rounds', 'quick': 6000, 'thorough': 30000, 'steps': 50, 'shrinktime': '15s'},
+                      {'run': 'TestVerifC04HistoryVariants', 'quick': 6000, 'thorough': 30000, 'steps': 40, 'shrinktime': '15s'},
                       {'run': 'TestVerifC04HistoryLong', 'thorough': 10000, 'steps': 120, 'thorough_only': True, 'shrinktime': '20s'},
                       {'run': 'TestVerifC04Concurrent', 'thorough': 3000, 'race': True, 'thorough_only': True, 'shards': 4,
                        'shrinktime': '20s'}]},
